@@ -49,4 +49,10 @@ PROPS = {
         rule="as C03 (clients sharing an IP with different ports, different IPs, different keys, same key; several targets; replies from strangers); non-trivial = at least one association; distinct = distinct (event-log hash, schedule fingerprint)",
         real=["service.packetHandler.Handle, natmap (Get/Add/del), natconn, timedCopy; shared packet listener"],
         stub=COMMON_STUB, assumptions=COMMON_ASSUME + ["associations do not expire inside a run of this scenario (5 min timeout, no port-53 traffic); expiry is C14's scenario"]),
+    "C16": dict(
+        scenarios=[dict(name="c16", quick=3000, thorough=300000, quick_budget_s=150, thorough_budget_s=1800)],
+        level_text="Same run shape as C03 with a recording wrapper around the real Prometheus collectors: every AddUDPNatEntry / AddPacketFromClient / AddPacketFromTarget / RemoveNatEntry call is compared, call by call and in order, with the reference model's verdict for the datagram it belongs to and with sizes taken from the ground-truth ledger; after the run the real registry is gathered and udp_nat_entries_added/removed and data_bytes{proto=udp} per key and direction must equal the sums. Sampling, not proof.",
+        rule="as C03 (valid, wrong-key on live association, rejected destinations, bad address headers, replies of all sizes from several senders); loss/dup/reorder apply outside the proxy so equalities stay exact; non-trivial = at least one association; distinct = distinct (event-log hash, schedule fingerprint)",
+        real=["service.packetHandler, natmap, timedCopy; prometheus.serviceMetrics/udpServiceMetrics/proxyCollector (real client_golang counters, gathered through a real Registry after the run)"],
+        stub=COMMON_STUB, assumptions=COMMON_ASSUME),
 }
